@@ -589,3 +589,100 @@ def build9(m):
                  ('implies(result, 1 <= Heading.level and Heading.level <= 6)', ['C12', 'C08'])],
         modifies=['G:Heading.level', 'G:Heading.content', 'G:Heading.closing_sequence'],
         prop=['C01', 'C12', 'C11']), classmethod_=True)
+
+
+def build10(m):
+    """Footnote.append_footnotes: first definition wins, the stored key is the normalised label (C07)."""
+    def method(cls, name, c, static=False, classmethod_=False):
+        m.methods[(cls, name)] = c.key
+        c.is_static = static
+        c.is_classmethod = classmethod_
+        m.add(c)
+        return c
+    REF5 = TTuple([STR, STR, STR, STR, TOpt(STR)])
+    ROOT = TRef('RootDoc')
+    m.classes['RootDoc'] = {'footnotes': TDict(STR, TTuple([STR, STR]))}
+    m.ufunc('norm_label', [STR], STR)
+    m.ufunc('esc_strip', [STR], STR)
+    ns = m.namespaces[MOD]
+    ns['normalize_label'] = ('func', 'mistletoe.core_tokens:normalize_label#uf')
+    m.add(Contract('mistletoe.core_tokens:normalize_label#uf', [('text', STR)], returns=STR, trusted=True, pure=True,
+                   ensures=['result == norm_label(text)'],
+                   note="label normalisation ' '.join(text.split()).casefold() as an uninterpreted function (A4); "
+                        'the same function is used at the store and at every lookup site (syntactic check in phase lemma)'))
+    m.methods[('EscapeSequence', 'strip')] = 'mistletoe.span_token:EscapeSequence.strip#uf'
+    m.add(Contract('mistletoe.span_token:EscapeSequence.strip#uf', [('string', STR)], returns=STR, trusted=True, pure=True,
+                   ensures=['result == esc_strip(string)'], is_static=True))
+    m.namespaces.setdefault('mistletoe.span_token', {})['EscapeSequence'] = ('class', 'EscapeSequence')
+    KEY = 'norm_label(matches[j][0])'
+    VAL = '(esc_strip(matches[j][1].strip()), esc_strip(matches[j][2]))'
+    c = Contract(
+        MOD + ':Footnote.append_footnotes#firstwins', [('matches', TList(REF5)), ('root', ROOT)],
+        ensures=[
+            # (a) an existing definition is never overwritten
+            ('forall_str(lambda k: implies(k in old(root.footnotes), k in root.footnotes and '
+             'root.footnotes[k] == old(root.footnotes)[k]))', 'C07'),
+            # (b) every processed label is defined afterwards, under its normalised key
+            ('forall(lambda j: %s in root.footnotes, 0, len(matches))' % KEY, 'C07'),
+            # (c) a label that was new gets the value of its FIRST occurrence in matches
+            ('forall(lambda j: implies(not (%s in old(root.footnotes)) and '
+             'forall(lambda i: norm_label(matches[i][0]) != %s, 0, j), root.footnotes[%s] == %s), 0, len(matches))'
+             % (KEY, KEY, KEY, VAL), 'C07'),
+        ],
+        modifies=['root.footnotes'],
+        loops={0: Loop(invariant=[
+            'forall_str(lambda k: implies(k in old(root.footnotes), k in root.footnotes and root.footnotes[k] == old(root.footnotes)[k]))',
+            'forall(lambda j: %s in root.footnotes, 0, _k0)' % KEY,
+            'forall(lambda j: implies(not (%s in old(root.footnotes)) and '
+            'forall(lambda i: norm_label(matches[i][0]) != %s, 0, j), root.footnotes[%s] == %s), 0, _k0)' % (KEY, KEY, KEY, VAL),
+            # nothing but processed labels has been added
+            'forall_str(lambda k: implies(k in root.footnotes and not (k in old(root.footnotes)), '
+            'exists(lambda j: norm_label(matches[j][0]) == k, 0, _k0)))',
+        ])},
+        prop=['C07'], options={'tier': 'thorough'})
+    c.is_static = True
+    m.add(c)
+
+
+def build11(m):
+    """Scratch typestate (C05, C11, C03): every truthy exit of a scratch-writing start() has written
+    all of its scratch fields on that very path, so read() never sees a value left by an earlier block."""
+    def method(cls, name, c, static=False, classmethod_=False):
+        m.methods[(cls, name)] = c.key
+        c.is_static = static
+        c.is_classmethod = classmethod_
+        m.add(c)
+        return c
+    hs = m.contracts[MOD + ':Heading.start']
+    hs.ensures.append(("implies(result, written('Heading.level') and written('Heading.content') "
+                       "and written('Heading.closing_sequence'))", ['C05', 'C11', 'C03']))
+    hs.prop = sorted(set(hs.prop) | {'C05', 'C03'})
+    cf = m.contracts[MOD + ':CodeFence.start']
+    cf.ensures.append(("implies(result, written('CodeFence._open_info'))", ['C05', 'C11', 'C03']))
+    cf.prop = sorted(set(cf.prop) | {'C05', 'C03'})
+    # HtmlBlock.start: three patterns, only match / group(1) are used
+    MHB = TRef('MatchHB')
+    m.classes['MatchHB'] = {}
+    m.ufunc('hb_group1', [MHB], STR)
+    for pat in ('multiblock', 'predefined', 'custom_tag'):
+        uf = 'hb_%s_matches' % pat
+        m.ufunc(uf, [STR], BOOL)
+        m.class_attrs[('HtmlBlock', pat)] = ('const', mk_obj('pattern', 'HtmlBlock.' + pat))
+        m.add(Contract('re:HtmlBlock.%s.match' % pat, [('s', STR)], returns=TOpt(MHB), trusted=True, pure=True,
+                       ensures=['is_none(result) == (not %s(s))' % uf,
+                                "implies(not is_none(result), s.startswith('<'))"],
+                       note='A5: truth value and group(1) of the match only; every HtmlBlock pattern begins with "<"'))
+    m.methods[('MatchHB', 'group')] = 're:MatchHB.group'
+    m.add(Contract('re:MatchHB.group', [('self', MHB), ('n', INT)], returns=STR, trusted=True, pure=True,
+                   ensures=['result == hb_group1(self)']))
+    m.namespaces['mistletoe.span_token'] = m.namespaces.get('mistletoe.span_token', {})
+    m.namespaces['mistletoe.span_token']['_tags'] = ('charset', 'html_tags')
+    m.ufunc('in_html_tags', [STR], BOOL)
+    method('HtmlBlock', 'start', Contract(
+        MOD + ':HtmlBlock.start', [('cls', cls_t('HtmlBlock')), ('line', STR)], returns=None,
+        requires=["line.endswith('\\n')"],
+        ensures=[("implies(result, written('HtmlBlock._end_cond'))", ['C05', 'C11', 'C03']),
+                 # a started HTML block begins on a non-blank line (HtmlBlock.read relies on it)
+                 ("implies(result, line.strip() != '')", ['C01'])],
+        modifies=['G:HtmlBlock._end_cond'],
+        prop=['C01', 'C05', 'C11', 'C03']), classmethod_=True)
